@@ -16,7 +16,6 @@ import (
 	"fmt"
 	"io"
 
-	"github.com/tink-crypto/tink-go/v2/verifsim/core"
 )
 
 type streamer interface {
@@ -186,7 +185,7 @@ func (w *world) stepStream(arg int) {
 	op := opR + ".Read"
 	var got []byte
 	stalls := 0
-	for reads := 0; reads < 200; reads++ {
+	for reads := 0; reads < 200+len(msg); reads++ { // generous: io.Reader promises no delivery rate
 		rl := w.nextReadLen()
 		if stalls >= 2 || (reads >= 24 && rl < 512) {
 			rl = 512 // make progress: tiny buffers are for the first reads
@@ -207,7 +206,10 @@ func (w *world) stepStream(arg int) {
 			n, err = rd.Read(rb.Slice())
 		}()
 		rb.Delivered(n)
-		w.done(op) // spare capacity, canaries and p[n:] must be what they were
+		if rb.ScratchUsed {
+			w.r.Probe("read-buffer-tail-used-as-scratch")
+		}
+		w.done(op) // spare capacity beyond len(p) and the canaries must be what they were
 		if n < 0 || n > rl {
 			w.r.Violation("C19/read-overrun:"+op, fmt.Sprintf("%s of %s returned n = %d for a buffer of length %d (capacity %d)", op, p.ent.name, n, rl, rl+sp))
 			w.knownHits++
@@ -230,8 +232,7 @@ func (w *world) stepStream(arg int) {
 	}
 	w.obs(op, "plaintext", got)
 	if !w.faulted && !p.lenient && (err != io.EOF || !bytes.Equal(got, msg)) {
-		w.r.Violation("C19/read-content:"+op, fmt.Sprintf("%s of %s delivered %d bytes (final error %v) for a plaintext of %d bytes; first bytes %s, want %s",
-			op, p.ent.name, len(got), err, len(msg), core.Hex(got, 24), core.Hex(msg, 24)))
-		w.knownHits++
+		// whether a stream decrypts to its plaintext is C07's subject, not C19's: counted, not raised
+		w.r.Count("stream-read-content-differs(C07's subject)", 1)
 	}
 }
